@@ -65,7 +65,26 @@ class View:
         self.s = s
 
     def T(self, *atom):
-        return self.s.val(tuple(atom))
+        v = self.s.val(tuple(atom))
+        if v is None and atom and atom[0] in ("char_pred", "rmc_pred") and len(atom) == 2:
+            # the class predicate was not tested on this path, but the character is identified (an `==` test or a match arm taken):
+            # the predicate's value for that character is read from the predicate itself
+            ident = self._identity("char" if atom[0] == "char_pred" else "rmc")
+            pe, cls = MAP_EVAL.get("pe"), MAP_EVAL.get("cls") or {}
+            if ident is not None and pe is not None and atom[1] in cls:
+                r = pe.call(cls[atom[1]], [ord(ident)])
+                if isinstance(r, bool):
+                    return r
+        return v
+
+    def _identity(self, which):
+        for a, val in self.s.atoms:
+            if a[0] == which + "_eq" and val is True:
+                return a[1]
+        for a, val in self.s.atoms:
+            if a[0] == which + "_switch" and val != "otherwise" and len(val) == 1:
+                return chr(val[0])
+        return None
 
     def cfg(self, name):
         return self.T("cfg", name)
@@ -271,6 +290,7 @@ def run(ctx):
     pe = PredEval(prog)
     MAP_EVAL["pe"] = pe
     cls = classes.class_fns(prog)
+    MAP_EVAL["cls"] = cls
     feas = [s for s in S if kvp.feasible(s, pe, cls)]
     off = [s for s in feas if not any(a == ("cfg", "get_fixed_old_kar_order") and v is True for a, v in s.atoms)]
     r1.table("paths_feasible", len(feas))
